@@ -2,7 +2,7 @@
 # Runs the repository's pinned test suite (the command recorded in
 # /root/.vp/BASELINE.json, guard off = no -overlay) and compares with the
 # stable-pass list. Exit 0 iff every stable-pass test passes.
-cd /repo || exit 2
+cd ${REPO_DIR:-/repo} || exit 2
 OUT=$(mktemp /tmp/verif-baseline-XXXX.json)
 go test -mod=mod -json -vet=off -count=1 -timeout 25m ./... > $OUT 2>/dev/null
 python3 - $OUT <<'PY'
